@@ -54,7 +54,8 @@ CLAIMED["C05"] = dict(
           "findvwLTE: sentinel 1 only for {shock bracket fails, mismatch at top of window positive, matching not converged}, sentinel 0 iff "
           "mismatch at vMin negative after those guards, otherwise the brentq root of (shock temperature - Tn) on [vMin, vmax] with bracket signs "
           "and tolerances as stated; the convergence flag is never read before it is written (stale-state frame obligation)."
-          " A path that returns the runaway sentinel without its evidence gets the same obligation (nothing implies it). Root finds are identified by their call site."),
+          " A path that returns the runaway sentinel without its evidence gets the same obligation (nothing implies it). Root finds are identified by their call site."
+          " Class frame of Hydrodynamics (on the AST): no method other than the constructor writes the window constants (vJ, vMin, ranges, tolerances); per-call state is the convergence flag and the two phase-trace-limit flags."),
     note=COMMON_NOTE + " Not decided: 'one sign over the whole window' (needs monotonicity of the mismatch), uniqueness of the matching at the root.",
     design="3 (C05)")
 CLAIMED["C06"] = dict(
@@ -64,7 +65,8 @@ CLAIMED["C06"] = dict(
           "(its zero has v-^2=cs^2_low), returned value is v+ there (loop contract for the bracket search); template vJ solves the CJ quadratic "
           "(larger root), detonationVAndT solves the matching quadratic on the weak branch and gives v-=cb at vJ; fastestDeflag/slowestDeton: "
           "returned value and range flags on every path."
-          " strongestShock (plasma at rest in front, p+(T+)=p-(TMinHydro), result = solveHydroShock(vw,0,T+) at a converged root, 0 iff not bracketed); minVelocity (root of strongestShock(vw)-Tn on (vBracketLow,vJ), 0 iff not bracketed); Hydrodynamics.__init__ (vJ from findJouguetVelocity, template value only on WallGoError; vMin=max(1e-3,minVelocity()); temperature range (tmin,tmax)*Tn; phase ranges; flags)."),
+          " strongestShock (plasma at rest in front, p+(T+)=p-(TMinHydro), result = solveHydroShock(vw,0,T+) at a converged root, 0 iff not bracketed); minVelocity (root of strongestShock(vw)-Tn on (vBracketLow,vJ), 0 iff not bracketed); Hydrodynamics.__init__ (vJ from findJouguetVelocity, template value only on WallGoError; vMin=max(1e-3,minVelocity()); temperature range (tmin,tmax)*Tn; phase ranges; flags)."
+          " Class frame of Hydrodynamics as in C05. Template-model solver methods called from the general solver are values of another implementation (uninterpreted), never inlined."),
     note=COMMON_NOTE + " Not decided: 0<v<1, v+<v-, T+>Tn, weak-vs-strong selection by the numerical bracket, monotonicity of T(vw).",
     design="3 (C06)")
 
@@ -75,7 +77,8 @@ CLAIMED["C17"] = dict(
           "map: proved through lemmas - structure of the Jacobian, each smoothed step contributes smoothing*L/r at the centre, monotone/bounded "
           "sigmoid, bilinear lower bound (1-smoothing) L/r); compact origin -> wall centre, p_z(0)=0, p_par(-1)=0; centre slope = L/r with aIn/aOut "
           "from _updateParameters (closed forms proved); Grid.compactify and decompactify are mutually inverse; after every change*FalloffScale the "
-          "cached coordinates and Jacobians equal the maps of the current parameters. Known finding F3: the inverse offered by Grid3Scales."),
+          "cached coordinates and Jacobians equal the maps of the current parameters. Known finding F3: the inverse offered by Grid3Scales."
+          " Constructors (M=N=3, both spacings): parameters are the arguments (in particular the wall centre), nodes symmetric, cache current."),
     note=COMMON_NOTE + " Requires smoothing < 1 (documented in the class docstring, not asserted by the code; for smoothing > 1 the Jacobian is "
          "negative near the ends). artanh(u+0j).real is read as Re artanh with derivative u'/(1-u^2). Large equational goals are normalised by "
          "polynomial expansion (sympy) before the solver sees them. Not decided: that callers pass smoothing < 1.",
@@ -118,7 +121,8 @@ CLAIMED["C04"] = dict(
           "findPlasmaProfilePoint after the root find satisfies the T33 balance and v=plasmaVelocity(T), and (lemma) then T30 and T33 including the "
           "out-of-equilibrium parts equal c1, c2; loop contract for the bracket expansion; boundary lemma: (T+,-v+) and (T-,-v-) solve the point "
           "equations far from the wall (with C02's junction conditions). Known finding F6: the no-root branch returns the minimiser with T>0."
-          " deltaToTmunu (assumed contract of the point equations) is re-discharged here: T30/T33 are the boosted integrals of p^mu p^nu delta f."),
+          " deltaToTmunu (assumed contract of the point equations) is re-discharged here: T30/T33 are the boosted integrals of p^mu p^nu delta f."
+          " findPlasmaProfilePoint searches the root BELOW the minimum of the parabola exactly for detonations (T+ = Tn within 1e-10) and above it otherwise (loop invariant testTemp = tempAtMinimum * TMultiplier)."),
     note=COMMON_NOTE + " Assumed: EffectivePotential.evaluate/derivT are V and dV/dT; envelope theorem for the boundary lemma. Bounded: "
          "findPlasmaProfile's flag <=> all T>0 is checked for 3 grid points (for-loop unrolled).",
     design="3 (C04)")
@@ -128,7 +132,8 @@ CLAIMED["C09"] = dict(
           "_intermediatePressureResults: the integrand is sum_f (dV/dphi_f + dVout_f) dphi_f/dz with the profile of the FINAL wall parameters, "
           "dVout = 1/2 sum dof dm^2/dphi Delta00, integrated with weight -dz/dchi, and the returned pressure is that integral; chain-rule lemma: "
           "at constant T and without Delta00 the integrand is d/dz V(phi(z))."
-          " The weight dz/dchi is the derivative of the position map of Grid and Grid3Scales (callee contract re-discharged here; counter-models are replayed natively)."),
+          " The weight dz/dchi is the derivative of the position map of Grid and Grid3Scales (callee contract re-discharged here; counter-models are replayed natively)."
+          " _updateGrid: the wall region of the re-mapped grid is the envelope of the walls of all fields (contains each interval [(-1-d_i)L_i, (1-d_i)L_i], both ends attained); tails long enough for the grid's own assertion."),
     note=COMMON_NOTE + " Not claimed: numerical equality with V(low)-V(high) (quadrature and finite-difference accuracy). Nelder-Mead by stub "
          "(returns arbitrary parameters). Checked on 2 fields x 2 grid points x 2 particles with elementwise expressions.",
     design="3 (C09)")
@@ -149,7 +154,8 @@ CLAIMED["C13"] = dict(
     text=("deltaToTmunu equals the boosted direct integral of p^mu p^nu delta f (T30, T33) for every velocity |v|<1 and every moment set; "
           "getDeltas wraps the deviation as (Array,z,pz,pp) polynomial without endpoints, brings ALL polynomial axes to the cardinal basis before "
           "applying pointwise weights, integrates over axes (2,3) with W00=(dpz/drz)(dpp/drp) pp/(4 pi^2 E), W02=pz^2 W00, W20=E^2 W00, W11=E pz W00, "
-          "E^2=m^2(z)+pz^2+pp^2, and returns the four moments in order."),
+          "E^2=m^2(z)+pz^2+pp^2, and returns the four moments in order."
+          " estimateTruncationError, which getDeltas calls on the same array before the moments are taken, does not modify its argument in any of the four basis configurations (real Polynomial code, aliasing modelled by real numpy arrays)."),
     note=COMMON_NOTE + " Linearity and quadrature exactness are delegated to the contract of Polynomial.integrate/changeBasis (C16). Checked on "
          "2 particles and a 2x2x2 symbolic grid; the expressions are elementwise.",
     design="3 (C13)")
@@ -167,7 +173,8 @@ CLAIMED["C16"] = dict(
     level="other",
     text=("BOUNDED stand-in, not a proof: the real Polynomial/Grid code interpreted with symbolic coefficients on the exact Gauss-Lobatto nodes of "
           "grids (M,N) in {(3,3),(4,5)}: evaluate, cardinal<->Chebyshev round trip, derivative exact at all grid points incl. boundaries from "
-          "both bases, GCL integration weights incl. half weights, in z/pz/pp with and without endpoints; rank-2 (Array,pz) independence."),
+          "both bases, GCL integration weights incl. half weights, in z/pz/pp with and without endpoints; rank-2 (Array,pz) independence."
+          " Rank 2 with two polynomial axes (z, pz), all endpoint combinations and three basis pairs: evaluate returns the value of the bivariate polynomial at a generic point (bounded M=N=3)."),
     note="Bound: grid sizes listed; within a size every polynomial of the space is covered (symbolic coefficients). eval_chebyt/u and "
          "linalg.inv are sympy closed forms. The all-sizes index agreement planned in DESIGN was not built.",
     design="3 (C16)")
@@ -178,7 +185,8 @@ CLAIMED["C15"] = dict(
           "C06), specialised to the template EOS w+=wN (T/Tn)^mu, p+=pN+(w+-wN)/mu, w-=psiN wN (T/Tn)^nu: _findTm makes the energy flux equal on both "
           "sides; getVp solves the wall relation on both branches and the alpha(vp,vm) of _shooting is its inverse; wFromAlpha; findHydroBoundaries "
           "(c1, c2, velocityMid with the template EOS); __init__ definitions of alN, psiN, cb2, cs2, mu, nu, wN, pN; vJ and detonationVAndT in C06."
-          " Also under contract: template findvwLTE (static sentinel exactly when p+(Tn)>p-(Tn) or the vacuum energy of the symmetric phase is non-positive, runaway sentinel reasons, bracketed root of the shooting residual), findMatching (window, bracket, residual, v-=min(cb,vw), alpha+ solves the wall relation, T+ from the enthalpy, T- from _findTm), matchDeflagOrHybInitial, minVelocity, _eqWall (3 nu _eqWall = E - R: entropy-derived vs energy-flux-derived enthalpy ratio), solveAlpha (bracket above 0 and above the vacuum bound, branch choice, tolerances), maxAl.<matching> (shock jump conditions at the front, alpha+ relation, _eqWall form)."),
+          " Also under contract: template findvwLTE (static sentinel exactly when p+(Tn)>p-(Tn) or the vacuum energy of the symmetric phase is non-positive, runaway sentinel reasons, bracketed root of the shooting residual), findMatching (window, bracket, residual, v-=min(cb,vw), alpha+ solves the wall relation, T+ from the enthalpy, T- from _findTm), matchDeflagOrHybInitial, minVelocity, _eqWall (3 nu _eqWall = E - R: entropy-derived vs energy-flux-derived enthalpy ratio), solveAlpha (bracket above 0 and above the vacuum bound, branch choice, tolerances), maxAl.<matching> (shock jump conditions at the front, alpha+ relation, _eqWall form)."
+          " The bracket of the template findMatching ends below the point where the enthalpy w+ changes sign whenever that point lies inside (0, min(cs^2/vw, vw)) (lemma: the sign change is a root of an explicit quadratic Q). Class frame: no template method other than the constructor writes an attribute."),
     note=COMMON_NOTE + " Power laws used for symbolic exponents: b^(x+y)=b^x b^y, b^(-x)=1/b^x, (b^x)^y=b^(xy), (ab)^x=a^x b^x offered only as a conditional law "
          "(all factors positive => equal; nothing is assumed about their signs). Not decided: numerical agreement of the two root finders to tolerance, uniqueness of the physical root, vwLTE/kappa agreement.",
     design="3 (C15)")
@@ -189,7 +197,8 @@ CLAIMED["C18"] = dict(
           "shape with S(x) inside and exactly the mode's prescription outside (ERROR raises ValueError), derivative follows the same rule entry by "
           "entry, non-finite rows are dropped individually, setExtrapolationType rebuilds the spline from the same table with extrapolation iff a "
           "side is FUNCTION from any previous pair, range = min/max of kept points. F4a/b/c found here were fixed in the repository."
-          " _interpolate with the real _dropBadPoints inlined (4-row tables, every pattern of non-finite rows leaving >= 2 rows): table, spline, derivative splines and reported range are those of the kept rows."),
+          " _interpolate with the real _dropBadPoints inlined (4-row tables, every pattern of non-finite rows leaving >= 2 rows): table, spline, derivative splines and reported range are those of the kept rows."
+          " extendInterpolationTable on a 3-row table (0 or 2 new points per side, all 16 combinations): new lower points ++ old rows with their old values ++ new upper points, ordinates belong to their abscissae, strictly increasing, function evaluated only at the new points, adaptive bookkeeping reset."),
     note="Bound: array length <= 2, rank <= 2, components <= 2. Not decided: spline accuracy, adaptive updates, extendInterpolationTable "
          "(np.arange with symbolic bounds), file round trip.",
     design="3 (C18)")
